@@ -22,16 +22,17 @@ func main() {
 	shards := hx.Atoi(args["shards"], 16)
 	rnd := hx.NewRand(hx.Seed() ^ uint64(len(prop))*977)
 
-	viol := "l_direct_violations"
+	viol, knownStar := "l_direct_violations", "l_known_star_direct"
 	if prop == "C08" {
-		viol = "l_full_violations"
+		viol, knownStar = "l_full_violations", "l_known_star_full"
 	}
 	cs := &hx.Cases{
 		Header: "From FoxBase Require Import Bytes.\nFrom FoxRoute Require Import Node Lookup Spec Tree Corr.\n",
 		Type:   "lcase",
 		Footer: "Definition mism := Eval vm_compute in l_mismatches cases.\nPrint mism.\n" +
 			"Definition viol := Eval vm_compute in " + viol + " cases.\nPrint viol.\n" +
-			"Definition oof := Eval vm_compute in l_fuel_outs cases.\nPrint oof.\n",
+			"Definition oof := Eval vm_compute in l_fuel_outs cases.\nPrint oof.\n" +
+			"Definition known_c01_star_byte_prefers_catchall := Eval vm_compute in " + knownStar + " cases.\nPrint known_c01_star_byte_prefers_catchall.\n",
 	}
 	st := &hx.Stats{Rule: "route sets of 1-14 random patterns over a segment alphabet (static a/b/ab/abc/c, {x},{y}, mid-segment a{x}/ab{y}, suffix and infix *{w}/*{v}, mid-segment b*{w}; hostnames with label params in a share of the sets) registered on 1-3 methods in random order; requests derived from the registered patterns (instantiated wildcards, then 0-2 perturbations: toggle trailing slash, change/insert/delete a byte, add/remove a segment) plus host perturbations (port, trailing dot, extra labels/bytes on either side, truncation, upper case); non-trivial = the request matched a route (directly or by trailing slash) or came from a perturbed instantiation; distinct = distinct (route set, method, host, path)"}
 
@@ -46,7 +47,7 @@ func main() {
 	seen := map[string]bool{}
 	nontrivial := 0
 	for si := 0; si < nsets; si++ {
-		f, err := fox.New()
+		f, err := fox.New(fox.WithIgnoreTrailingSlash(true))
 		hx.Fatal(err)
 		methods := []string{"GET", "POST", "FOO"}[:rnd.Range(1, 3)]
 		npat := rnd.Range(1, 14)
@@ -175,11 +176,12 @@ func main() {
 			if rr != nil {
 				rev = "(Some " + hx.Pair(hx.Bytes(rr.Pattern()), hx.Bool(rtsr)) + ")"
 			}
+			others, odetail := rt.OtherEntryPoints(f, method, host, path, lo, true)
 			inSpec := !rt.HasEmptySegment(path) && strings.HasPrefix(path, "/")
 			shost := fox.VerifStripHostPort(host)
-			term := fmt.Sprintf("(%s, {| q_method := %s; q_rawhost := %s; q_host := %s; q_path := %s; q_lookup := %s; q_reverse := %s; q_spec := %s |})",
-				def, hx.Bytes(method), hx.Bytes(host), hx.Bytes(shost), hx.Bytes(path), lo.Term(), rev, hx.Bool(inSpec))
-			human := fmt.Sprintf("routes=%v %s host=%q path=%q => lookup=%+v reverse=(%v,%v)", dumpRoutes(f), method, host, path, lo, rr != nil, rtsr)
+			term := fmt.Sprintf("(%s, {| q_method := %s; q_rawhost := %s; q_host := %s; q_path := %s; q_lookup := %s; q_reverse := %s; q_spec := %s; q_others := %s |})",
+				def, hx.Bytes(method), hx.Bytes(host), hx.Bytes(shost), hx.Bytes(path), lo.Term(), rev, hx.Bool(inSpec), hx.Bool(others))
+			human := fmt.Sprintf("routes=%v %s host=%q path=%q => lookup=%+v reverse=(%v,%v) other-entry-points-agree=%v %s", dumpRoutes(f), method, host, path, lo, rr != nil, rtsr, others, odetail)
 			cs.AddWithDef(def, tree, term, human)
 			st.Count("kind:" + kind)
 			switch {
